@@ -7,3 +7,11 @@ use trust_runtime::value::Duration;
 pub fn any_duration() -> Duration {
     Duration::from_nanos(kani::any())
 }
+
+/// Fixed SipHash keys for `std::hash::RandomState::new` (the real one reads thread-local state
+/// seeded through a getrandom FFI call). Needs `unsafe`, which is why the harness crate is external:
+/// every trust-platform library crate is `#![forbid(unsafe_code)]`. The properties that use this stub
+/// do not depend on the hash seed.
+pub fn fixed_random_state() -> std::hash::RandomState {
+    unsafe { std::mem::transmute::<[u64; 2], std::hash::RandomState>([0x0123_4567_89ab_cdef, 0x0f1e_2d3c_4b5a_6978]) }
+}
